@@ -10,7 +10,11 @@ repeated and alternating binds.  For every bind the truth table of the bound fun
 on ALL remaining inputs and judged by oracles that do not use `bind`:
   * CPython running the user's source with the parameters passed as keyword arguments;
   * the real front end on the source specialised *textually* by this harness (signature without
-    the parameters, `k = repr(v)` lines prepended in keyword order) - never through bind;
+    the parameters, `k = repr(v)` lines prepended in keyword order) - never through bind; when the
+    listed defect is not active (repaired bind) a value of the declared type T is written
+    `k: T = repr(v)`, and a second reference uses the library's typecasts (`Qint4(3)`) instead;
+  * keyword values that are not values of the declared type (an int needing more bits than Qint[n]):
+    bound as bare literals also by the repaired bind;
   * `ast.dump(u.fun_ast)` / `u.parameters` before and after every bind, results of repeated binds
     of the same values after any history, a fresh unbound object;
   * wrong arity / unknown names must raise, and must leave the object usable.
@@ -1163,7 +1167,7 @@ def out_of_domain(t, v):
     if t == "bool":
         return None
     if t[0] == "qint":
-        return 2 ** t[1] + (v % 2) if t[1] <= 4 else None
+        return 2 ** t[1] if t[1] <= 4 else None  # the first int that does not fit
     if t[0] in ("tuple", "qlist"):
         el = ty_elems(t)
         for i in range(len(el) - 1, -1, -1):
